@@ -372,14 +372,16 @@ pub fn builtin_binary_shift<E: Effect>(
                     let bytes = binary_data.to_vec();
 
                     let shift_left = shift_amount > 0;
-                    let shift_bits = shift_amount.unsigned_abs() as u32;
+                    let shift_bits = shift_amount.unsigned_abs();
 
-                    if shift_bits >= (bytes.len() as u32 * 8) {
+                    if shift_bits >= (bytes.len() as u64 * 8) {
                         // Shift larger than total bits results in zeros
                         let result = vec![0u8; bytes.len()];
                         let binary = executor.allocate_binary(result)?;
                         return Ok(BuiltinResult::Value(Value::Binary(binary)));
                     }
+                    // Now < len * 8, which fits u32 comfortably (len <= MAX_BINARY_SIZE).
+                    let shift_bits = shift_bits as u32;
 
                     let mut result = vec![0u8; bytes.len()];
                     let byte_shift = (shift_bits / 8) as usize;
